@@ -207,6 +207,23 @@ fn judge_pair(rec: &mut Rec, p: &Pair) {
             Err(_) => rec.bin("note/a-since-panicked(other-property)"),
         }
     }
+    // every way the order can be read: ==, !=, cmp, partial_cmp, <, >, <=, >=, max, min, clamp
+    let extra = trap(|| {
+        let lo_hi_ok = a <= b;
+        let later = if exp == Ordering::Less { b } else { a };
+        let earlier = if exp == Ordering::Greater { b } else { a };
+        (a <= b, a >= b, a != b, a.max(b) == later && read(&a.max(b)) == read(&later), a.min(b) == earlier && read(&a.min(b)) == read(&earlier), std::cmp::max(a, b) == later, if lo_hi_ok { a.clamp(a, b) == a } else { b.clamp(b, a) == b })
+    });
+    match extra {
+        Err(pn) => rec.violation(format!("C03|pairs|DateTime <=/>=/max/min|panic|{},{}", pn.class, pn.site()), || json!({"a": {"instant": show(p.i), "offset": p.o1}, "b": {"instant": show(p.j), "offset": p.o2}, "panic": pn.to_json()})),
+        Ok((le, ge, ne, maxok, minok, stdmax, clampok)) => {
+            if le != (exp != Ordering::Greater) || ge != (exp != Ordering::Less) || ne != (exp != Ordering::Equal) || !maxok || !minok || !stdmax || !clampok {
+                rec.violation(format!("C03|pairs|DateTime <=/>=/!=/max/min/clamp|disagrees-with-instants|{},model={}", p.class, ord_name(exp)), || {
+                    json!({"a": {"instant": show(p.i), "offset": p.o1}, "b": {"instant": show(p.j), "offset": p.o2}, "le": le, "ge": ge, "ne": ne, "max_is_the_later_instant": maxok, "min_is_the_earlier_instant": minok, "std::cmp::max": stdmax, "clamp": clampok})
+                });
+            }
+        }
+    }
     let r = trap(|| (a == b, a.cmp(&b), a.partial_cmp(&b), a < b, a > b, b.cmp(&a), sinces.clone()));
     rec.api("DateTime::cmp/eq");
     let wit = |obs: serde_json::Value| json!({"a": {"instant": show(p.i), "offset": p.o1}, "b": {"instant": show(p.j), "offset": p.o2}, "class": p.class, "model_cmp": ord_name(exp), "observed": obs});
